@@ -561,6 +561,47 @@ func closedGroup(b *xlsxBook, rows []genRow, target genRow) []int {
 	return out
 }
 
+// subfieldGroup: the target row together with exactly the subfield rows (of dynamic fields of the same
+// message) that name it as their reference field — the dynamic main fields themselves stay enabled.
+// nil if some row's components mention the target (then the main row would have to go as well:
+// closedGroup), or if no subfield refers to it.
+func subfieldGroup(b *xlsxBook, rows []genRow, target genRow) []int {
+	sheet := b.Sheets[1].Rows
+	mentions := func(cellText string) bool {
+		for _, c := range strings.Split(cellText, ",") {
+			if camel(strings.TrimSpace(c)) == target.Name {
+				return true
+			}
+		}
+		return false
+	}
+	out := []int{target.RowIdx}
+	for _, r := range rows {
+		if r.Msg != target.Msg {
+			continue
+		}
+		if r.RowIdx != target.RowIdx && mentions(cell(sheet[r.RowIdx], 5)) {
+			return nil
+		}
+		for j := r.RowIdx + 1; j < len(sheet) && cell(sheet[j], 1) == "" && cell(sheet[j], 2) != ""; j++ {
+			if mentions(cell(sheet[j], 5)) {
+				return nil
+			}
+			if mentions(cell(sheet[j], 11)) {
+				if r.RowIdx == target.RowIdx {
+					return nil
+				}
+				out = append(out, j)
+			}
+		}
+	}
+	if len(out) == 1 || (target.Msg == "FileId" && target.Name == "Type") {
+		return nil
+	}
+	sort.Ints(out)
+	return out
+}
+
 var bundledSDKs = []string{"16.20", "20.14", "20.27", "20.43", "21.40"}
 
 func init() {
@@ -729,6 +770,31 @@ func postC19(res *RunResult) {
 		}
 		for v := 0; v < nVariants && len(referenced) > 0; v++ {
 			addGroup(referenced[r.intn(len(referenced))], false)
+		}
+		// reference fields of dynamic fields, disabled together with the subfield rows that refer to
+		// them while the dynamic fields stay enabled
+		var sgs [][]int
+		var sgNames []string
+		for _, fr := range base {
+			if fr.Enabled {
+				if g := subfieldGroup(book, base, fr); g != nil {
+					sgs = append(sgs, g)
+					sgNames = append(sgNames, fr.Msg+"."+fr.Name)
+				}
+			}
+		}
+		nsg := 2
+		if res.Tier == "thorough" {
+			nsg = len(sgs)
+		}
+		for v := 0; v < nsg && len(sgs) > 0; v++ {
+			i := r.intn(len(sgs))
+			if res.Tier == "thorough" {
+				i = v
+			}
+			if vd, err := variantWorkbook(book, sgs[i]); err == nil {
+				variants = append(variants, variant{name: fmt.Sprintf("subfields-of(%s,-%d rows)", sgNames[i], len(sgs[i])), data: vd, off: sgs[i]})
+			}
 		}
 		variants = append(variants, variant{name: "bundled -hrst", data: data, hrst: true})
 		for vi, v := range variants {
